@@ -53,7 +53,7 @@ ASSUMPTIONS = ['numpy.einsum on the namespace values is the reference meaning of
                'raised explicitly by Namespace / _eval_ast, TypeError of a called function for a wrong signature) are counted, not judged']
 import os
 BUDGET_S = {'quick': int(os.environ.get('C19_BUDGET_QUICK', 85)), 'thorough': int(os.environ.get('C19_BUDGET_THOROUGH', 1300))}
-NCASES = {'quick': 420, 'thorough': 9000}
+NCASES = {'quick': 510, 'thorough': 9000}
 NBASE = 4
 NCORR = {'quick': 24, 'thorough': 40}
 NMUT = {'quick': 8, 'thorough': 12}
